@@ -158,6 +158,7 @@ let model_step (e : ecfg) (v : vec) (l : line) : mres option =
 let () =
   let e = ref { e_size = n_of_string "24"; e_align = n_of_string "8" } in
   let mv : vec option ref = ref None in           (* the model's vector; None = not tracked any more *)
+  let promise : Z.t ref = ref Z.zero in           (* capacity a successful reserve promised and nothing has released since *)
   let pending : string option ref = ref None in
   let last_v : line option ref = ref None in
   let feat = ref false in
@@ -172,7 +173,7 @@ let () =
                | Some i -> Some (String.sub it 0 i, String.sub it (i + 1) (String.length it - i - 1)) | None -> None) (split_ws line) in
            hid := List.assoc "id" kv; header := String.trim line; opno := 0;
            e := { e_size = n_of_string (List.assoc "esize" kv); e_align = n_of_string (List.assoc "ealign" kv) };
-           mv := None; pending := None; last_v := None; feat := false; Buffer.clear sigb
+           mv := None; promise := Z.zero; pending := None; last_v := None; feat := false; Buffer.clear sigb
          | 'B' -> pending := Some line
          | 'V' ->
            pending := None;
@@ -197,6 +198,19 @@ let () =
             | _ ->
               (* C13 invariant part: capacity never below length *)
               if Z.lt l.cap (Z.of_int l.len) then report_spec ~prop:"C13" ~pred:"cap_ge_len" ~detail:(Z.to_string l.cap);
+              (* ... and never below what a reservation promised, until an operation that is allowed to
+                 give capacity back (shrink_to_fit) or that replaces the vector *)
+              (match l.op with
+               | ["reserve"; n; _] when not (is_panic l.res) && not (starts_with l.res "err") ->
+                 (* the reservation was made at the length the vector still has *)
+                 (try promise := Z.max !promise (Z.add (Z.of_int l.len) (Z.of_string n)) with _ -> ())
+               | ("shrink_to_fit" | "into_slice" | "into_iter" | "clone" | "split_off" | "new") :: _ -> promise := Z.zero
+               | _ -> ());
+              if is_panic l.res then promise := Z.zero;
+              if Z.lt l.cap !promise then begin
+                report_spec ~prop:"C13" ~pred:"reserved_capacity_kept" ~detail:("cap=" ^ Z.to_string l.cap ^ "_promised=" ^ Z.to_string !promise);
+                promise := Z.zero
+              end;
               if List.length l.contents <> l.len then report_spec ~prop:"C13" ~pred:"len_matches_contents" ~detail:(string_of_int l.len);
               (* C16: nothing dropped is still reachable; no identity twice *)
               let c = sorted l.contents in
